@@ -163,6 +163,17 @@ def stage_gen(ctx, st):
     wall = time.time() - t
     text = open(tlclog).read() if os.path.exists(tlclog) else ""
     info = parse_tlc(text)
+    hung = None
+    try:
+        hs = json.loads(open(summ).read().strip().splitlines()[-1])
+        if any(v["what"] == "hang" for v in (hs.get("violations") or [])):
+            hung = hs
+    except Exception:
+        pass
+    if hung is not None:
+        # the library did not return from a call: the binder reported it and stopped reading, so TLC's exit status is moot
+        absorb_summary(ctx, st, hung, dict(info, distinct=max(1, info["distinct"]), generated=max(1, info["generated"])), wall, exhaustive=False)
+        return
     if rc1 == 124:
         raise Machinery("stage %s: TLC timed out after %ss" % (st["name"], tmo))
     if rc1 != 0 or not info["ok"]:
